@@ -38,8 +38,20 @@ structure Chk where
   running : Bool := false
   /-- `ExecuteCheckHelper` calls dispatched by the scheduler that have not reached the guard yet -/
   hq : Nat := 0
-  /-- helpers past a successful `m_CheckRunning` test-and-set whose execution has not delivered its result -/
+  /-- helpers past a successful `m_CheckRunning` test-and-set whose command function is still running: a synchronous
+      command body, or a plugin command before it has spawned its process -/
   hx : Nat := 0
+  /-- helpers whose command has spawned a plugin process (PluginUtility::ExecuteCommand, pluginchecktask.cpp:56-57) and
+      that have not yet done PluginCheckTask's own `IncreasePendingChecks()` (:59-62) -/
+  hs : Nat := 0
+  /-- plugin processes spawned and not yet finished (ProcessFinishedHandler has not run) -/
+  procs : Nat := 0
+  /-- plugin processes that have finished and given back their unit (pluginchecktask.cpp:67-68) but whose result has not
+      reached `ProcessCheckResult` yet -/
+  pz : Nat := 0
+  /-- PluginCheckTask's own `+1`s (after the spawn) minus its `-1`s (when the process finished); a fast process can
+      finish before the `+1`, so this can be -1 for a moment -/
+  pbal : Int := 0
   /-- helpers whose `ExecuteCheck` has returned (result delivered, or guard found busy), before `DecreasePendingChecks` -/
   hr : Nat := 0
   /-- helpers after `DecreasePendingChecks`, before their final critical section -/
@@ -105,6 +117,19 @@ def helperGuard (x : Chk) : Chk :=
     ExecuteCheckHelper:235-251): checkable-check.cpp:103-106 resets the flag; `ExecuteCheck` returns. -/
 def result (x : Chk) : Chk := { x with running := false, hx := x.hx - 1, hr := x.hr + 1 }
 
+/-- asynchronous command (PluginCheckTask::ScriptFunc): the process is spawned from inside the helper,
+    pluginchecktask.cpp:56-57 -/
+def spawn (x : Chk) : Chk := { x with hx := x.hx - 1, hs := x.hs + 1, procs := x.procs + 1 }
+
+/-- PluginCheckTask's own `IncreasePendingChecks()` after the spawn (:59-62); then `ExecuteCheck` returns -/
+def pluginInc (x : Chk) : Chk := { x with hs := x.hs - 1, hr := x.hr + 1, pbal := x.pbal + 1 }
+
+/-- the process finished: `ProcessFinishedHandler` gives the unit back first (:67-68) … -/
+def procExit (x : Chk) : Chk := { x with procs := x.procs - 1, pz := x.pz + 1, pbal := x.pbal - 1 }
+
+/-- … and then hands the result to `ProcessCheckResult`, which resets the flag (checkable-check.cpp:103-106) -/
+def procResult (x : Chk) : Chk := { x with pz := x.pz - 1, running := false }
+
 /-- A result from elsewhere (passive / cluster) — outside the property's event alphabet (Q-C04). -/
 def passiveResult (x : Chk) : Chk := { x with running := false }
 
@@ -119,8 +144,16 @@ def helperFinish (x : Chk) : Chk :=
     if x.active then x.idleInsert else x            -- :266-267
   else x
 
-/-- units of `m_PendingChecks` held by this checkable's helpers -/
-def units (x : Chk) : Int := (x.hq + x.hx + x.hr : Nat)
+/-- units of `m_PendingChecks` held on behalf of this checkable: one per helper that has not decremented yet, plus
+    PluginCheckTask's own balance -/
+def units (x : Chk) : Int := (x.hq + x.hx + x.hs + x.hr : Nat) + x.pbal
+
+/-- helpers that may still start a process or are running a command body, plus running processes: what
+    `max_concurrent_checks` really bounds -/
+def slots (x : Chk) : Int := (x.hq + x.hx + x.procs : Nat)
+
+/-- command executions of this checkable that are running right now (command bodies and plugin processes) -/
+def execs (x : Chk) : Nat := x.hx + x.procs
 
 end Chk
 
@@ -146,6 +179,13 @@ inductive Act where
   | sched (c : Nat) (now : Int) (reach enabled inPeriod : Bool)
   | helperGuard (c : Nat)
   | result (c : Nat)
+  | spawn (c : Nat)
+  | pluginInc (c : Nat)
+  | procExit (c : Nat)
+  | procResult (c : Nat)
+  /-- Q-C04: a passive or cluster-relayed result processed while an execution is in progress.  It is a legal event of
+      the code (ProcessCheckResult resets `m_CheckRunning` for every result, checkable-check.cpp:103-106) but outside the
+      property's event alphabet; `single_flight` excludes it and `…_counterexample_with_passive_result` shows why. -/
   | passiveResult (c : Nat)
   | helperDec (c : Nat)
   | helperFinish (c : Nat)
@@ -187,6 +227,12 @@ def step (s : St) : Act → Option St
     else none
   | .helperGuard c => if c < s.n ∧ 0 < (s.chk c).hq then some (s.upd c (s.chk c).helperGuard) else none
   | .result c => if c < s.n ∧ 0 < (s.chk c).hx then some (s.upd c (s.chk c).result) else none
+  | .spawn c => if c < s.n ∧ 0 < (s.chk c).hx then some (s.upd c (s.chk c).spawn) else none
+  | .pluginInc c =>
+    if c < s.n ∧ 0 < (s.chk c).hs then some { s.upd c (s.chk c).pluginInc with counter := s.counter + 1 } else none
+  | .procExit c =>
+    if c < s.n ∧ 0 < (s.chk c).procs then some { s.upd c (s.chk c).procExit with counter := s.counter - 1 } else none
+  | .procResult c => if c < s.n ∧ 0 < (s.chk c).pz then some (s.upd c (s.chk c).procResult) else none
   | .passiveResult c => if c < s.n then some (s.upd c (s.chk c).passiveResult) else none
   | .helperDec c =>
     if c < s.n ∧ 0 < (s.chk c).hr then some { s.upd c (s.chk c).helperDec with counter := s.counter - 1 } else none
@@ -205,8 +251,9 @@ def sumTo (n : Nat) (f : Nat → Int) : Int :=
   | 0 => 0
   | k + 1 => sumTo k f + f k
 
-/-- number of command executions in progress (between a successful guard and their result) -/
-def St.executing (s : St) : Int := sumTo s.n fun i => ((s.chk i).hx : Int)
+/-- number of command executions running right now: command bodies inside helpers and spawned, unfinished plugin
+    processes, over all checkables -/
+def St.executing (s : St) : Int := sumTo s.n fun i => ((s.chk i).execs : Int)
 
 /-! ### `Checkable::UpdateNextCheck`, checkable-check.cpp:52-81, over exact rationals (seconds) -/
 
